@@ -16,10 +16,10 @@ def gen(rng, n):
     for i in range(n):
         d = S.base(rng, small=True)
         d["ZERO_RTT"] = rng.choice([1, 2])
-        d["STREAM_BYTES"] = rng.choice([1, 700, 3000, 8000])
+        d["STREAM_BYTES"] = rng.choice([0, 0, 1, 700, 3000, 8000])
         d["NBIDI"] = rng.range(0, 2)
         d["NUNI"] = rng.range(0 if d["NBIDI"] else 1, 2)
-        d["RETRY"] = rng.below(2)
+        d["RETRY"] = rng.choice([0, 1, 2, 2])
         d["CLOSER"] = 0
         d["IDLE_MS"] = 0
         d["MAX_TIME"] = 200_000_000
